@@ -68,7 +68,7 @@ func (ex *Exec) drawBytes(st *State, name string, n, c *Term) (int, *Arr) {
 // (or the path continues without assigning).
 func (ex *Exec) stub(st *State, fr *Frame, fn *ssa.Function, args []Value, isDefer bool) (Value, bool) {
 	name := fn.Name()
-	if strings.HasPrefix(name, "zz") && !strings.HasPrefix(name, "zzH") && fn.Pkg != nil {
+	if intrinsicNames[name] && fn.Pkg != nil {
 		return ex.intrinsic(st, fr, name, args), true
 	}
 	full := fn.String()
@@ -238,6 +238,16 @@ func (ex *Exec) stub(st *State, fr *Frame, fn *ssa.Function, args []Value, isDef
 		return ex.strConst(""), true
 	}
 	return nil, false
+}
+
+var intrinsicNames = map[string]bool{}
+
+func init() {
+	for _, n := range strings.Fields(`zzRegister zzU8 zzU16 zzU32 zzU64 zzBool zzInt zzPick zzBytesCap zzBytes zzString zzAssume zzAssert
+		zzFail zzAssertEqBytes zzAssertEqStr zzAssertEqStrBytes zzReach zzObserve zzAnd zzOr zzImplies zzNot zzIteInt zzParam zzEqStr
+		zzEqBytes zzEqStrBytes zzConcrete zzMarkCaller zzIsFreed zzSameMem zzSameMemStr zzDisjoint zzHavocFreed zzNative`) {
+		intrinsicNames[n] = true
+	}
 }
 
 func nextPow2(v uint64) uint64 {
